@@ -28,6 +28,9 @@ pub trait Spsc: Send + Sync {
     fn pop(&self) -> Option<u64>;
     fn range(&self) -> (usize, usize);
     fn len(&self) -> usize;
+    /// acquire the consumer token, run `f` with a pop function that goes through the handle,
+    /// drop the handle; false if the token could not be acquired
+    fn with_consumer(&self, f: &mut dyn FnMut(&mut dyn FnMut() -> Option<u64>)) -> bool;
 }
 
 macro_rules! range_of {
@@ -49,6 +52,21 @@ impl Spsc for IndexQueue {
     fn len(&self) -> usize {
         IndexQueue::len(self)
     }
+    fn with_consumer(&self, f: &mut dyn FnMut(&mut dyn FnMut() -> Option<u64>)) -> bool {
+        sched::log_api(json!({"k":"tok","t":0,"a":"acq_begin"}));
+        let c = self.acquire_consumer();
+        sched::log_api(json!({"k":"tok","t":0,"a":"acq_end"}));
+        match c {
+            None => false,
+            Some(mut c) => {
+                f(&mut || c.pop());
+                sched::log_api(json!({"k":"tok","t":0,"a":"rel_begin"}));
+                drop(c);
+                sched::log_api(json!({"k":"tok","t":0,"a":"rel_end"}));
+                true
+            }
+        }
+    }
 }
 
 impl<const N: usize> Spsc for FixedSizeIndexQueue<N> {
@@ -63,6 +81,21 @@ impl<const N: usize> Spsc for FixedSizeIndexQueue<N> {
     }
     fn len(&self) -> usize {
         FixedSizeIndexQueue::len(self)
+    }
+    fn with_consumer(&self, f: &mut dyn FnMut(&mut dyn FnMut() -> Option<u64>)) -> bool {
+        sched::log_api(json!({"k":"tok","t":0,"a":"acq_begin"}));
+        let c = self.acquire_consumer();
+        sched::log_api(json!({"k":"tok","t":0,"a":"acq_end"}));
+        match c {
+            None => false,
+            Some(mut c) => {
+                f(&mut || c.pop());
+                sched::log_api(json!({"k":"tok","t":0,"a":"rel_begin"}));
+                drop(c);
+                sched::log_api(json!({"k":"tok","t":0,"a":"rel_end"}));
+                true
+            }
+        }
     }
 }
 
@@ -82,6 +115,21 @@ impl Spsc for SafelyOverflowingIndexQueue {
     fn len(&self) -> usize {
         SafelyOverflowingIndexQueue::len(self)
     }
+    fn with_consumer(&self, f: &mut dyn FnMut(&mut dyn FnMut() -> Option<u64>)) -> bool {
+        sched::log_api(json!({"k":"tok","t":0,"a":"acq_begin"}));
+        let c = self.acquire_consumer();
+        sched::log_api(json!({"k":"tok","t":0,"a":"acq_end"}));
+        match c {
+            None => false,
+            Some(mut c) => {
+                f(&mut || c.pop());
+                sched::log_api(json!({"k":"tok","t":0,"a":"rel_begin"}));
+                drop(c);
+                sched::log_api(json!({"k":"tok","t":0,"a":"rel_end"}));
+                true
+            }
+        }
+    }
 }
 
 impl<const N: usize> Spsc for FixedSizeSafelyOverflowingIndexQueue<N> {
@@ -100,6 +148,21 @@ impl<const N: usize> Spsc for FixedSizeSafelyOverflowingIndexQueue<N> {
     fn len(&self) -> usize {
         FixedSizeSafelyOverflowingIndexQueue::len(self)
     }
+    fn with_consumer(&self, f: &mut dyn FnMut(&mut dyn FnMut() -> Option<u64>)) -> bool {
+        sched::log_api(json!({"k":"tok","t":0,"a":"acq_begin"}));
+        let c = self.acquire_consumer();
+        sched::log_api(json!({"k":"tok","t":0,"a":"acq_end"}));
+        match c {
+            None => false,
+            Some(mut c) => {
+                f(&mut || c.pop());
+                sched::log_api(json!({"k":"tok","t":0,"a":"rel_begin"}));
+                drop(c);
+                sched::log_api(json!({"k":"tok","t":0,"a":"rel_end"}));
+                true
+            }
+        }
+    }
 }
 
 impl<const N: usize> Spsc for Queue<u64, N> {
@@ -114,6 +177,21 @@ impl<const N: usize> Spsc for Queue<u64, N> {
     }
     fn len(&self) -> usize {
         Queue::len(self)
+    }
+    fn with_consumer(&self, f: &mut dyn FnMut(&mut dyn FnMut() -> Option<u64>)) -> bool {
+        sched::log_api(json!({"k":"tok","t":0,"a":"acq_begin"}));
+        let c = self.acquire_consumer();
+        sched::log_api(json!({"k":"tok","t":0,"a":"acq_end"}));
+        match c {
+            None => false,
+            Some(mut c) => {
+                f(&mut || c.pop());
+                sched::log_api(json!({"k":"tok","t":0,"a":"rel_begin"}));
+                drop(c);
+                sched::log_api(json!({"k":"tok","t":0,"a":"rel_end"}));
+                true
+            }
+        }
     }
 }
 
@@ -172,6 +250,29 @@ fn consumer_body(q: Arc<dyn Spsc>, pops: u64) -> sched::Body {
                 Some(v) => json!({"k":"ret","t":1,"a":"pop","r":"some","v":v}),
             };
             sched::log_api(ev);
+        }
+    })
+}
+
+fn handover_consumer_body(q: Arc<dyn Spsc>, tid: usize, pops: u64) -> sched::Body {
+    Box::new(move || {
+        for _attempt in 0..30 {
+            sched::yield_api("acquire_consumer");
+            let done = q.with_consumer(&mut |pop| {
+                for _ in 0..pops {
+                    sched::yield_api("pop");
+                    sched::log_api(json!({"k":"call","t":tid,"a":"pop","v":0}));
+                    let r = pop();
+                    let ev = match r {
+                        None => json!({"k":"ret","t":tid,"a":"pop","r":"none","v":0}),
+                        Some(v) => json!({"k":"ret","t":tid,"a":"pop","r":"some","v":v}),
+                    };
+                    sched::log_api(ev);
+                }
+            });
+            if done {
+                return;
+            }
         }
     })
 }
@@ -236,7 +337,15 @@ pub fn main(args: &Args) {
             yield_after: args.flag("yield-after"),
             site_filter: None,
         };
-        let bodies = vec![producer_body(q.clone(), pushes), consumer_body(q.clone(), pops)];
+        let bodies = if args.flag("handover") {
+            vec![
+                producer_body(q.clone(), pushes),
+                handover_consumer_body(q.clone(), 1, pops),
+                handover_consumer_body(q.clone(), 2, pops),
+            ]
+        } else {
+            vec![producer_body(q.clone(), pushes), consumer_body(q.clone(), pops)]
+        };
         let res = sched::run(cfg, bodies, strat);
         if res.outcome != Outcome::Completed || !res.panics.is_empty() {
             anomalies.set(anomalies.get() + 1);
